@@ -341,6 +341,61 @@ def analyse_omp_index():
     return defs
 
 
+def analyse_wps_parts():
+    """geometry of the compact warping-paths layout: dtw_wps_parts and dtw_wps_shift"""
+    path = os.path.join(REPO, "src/DTAIDistanceC/DTAIDistanceC/dd_dtw.c")
+    txt = strip_comments(open(path).read())
+    fns = {}
+    for m in re.finditer(r"^(?:static\s+)?(?:DTWWps|idx_t)\s+(\w+)\s*\(([^)]*)\)\s*\{", txt, flags=re.M | re.S):
+        start = m.end() - 1
+        fns[m.group(1)] = txt[start:match_brace(txt, start) + 1]
+    defs = []
+
+    def one(fn, pattern, what):
+        body = fns.get(fn)
+        if body is None:
+            raise TranslateError("function %s not found in dd_dtw.c" % fn)
+        ms = re.findall(pattern, body, flags=re.S)
+        if len(ms) != 1:
+            raise TranslateError("%s: %s matched %d times (expected 1)" % (fn, what, len(ms)))
+        return ms[0]
+
+    def ex(t):
+        return c_expr(t.replace("parts.", ""))
+    fn = "dtw_wps_parts"
+    a, b, c2, d2, e2, f2 = one(fn, r"if\s*\(l1 > l2\)\s*\{\s*parts\.ldiff\s*=\s*([^;]+);\s*parts\.ldiffr\s*=\s*([^;]+);\s*parts\.ldiffc\s*=\s*([^;]+);\s*\}\s*else\s*\{\s*parts\.ldiff\s*=\s*([^;]+);\s*parts\.ldiffr\s*=\s*([^;]+);\s*parts\.ldiffc\s*=\s*([^;]+);\s*\}",
+                               "ldiff/ldiffr/ldiffc")
+    defs.append(("c_parts_ldiff", ["l1", "l2"], "(if l1 >? l2 then %s else %s)" % (ex(a)[0], ex(d2)[0])))
+    defs.append(("c_parts_ldiffr", ["l1", "l2", "ldiff"], "(if l1 >? l2 then %s else %s)" % (ex(b)[0], ex(e2)[0])))
+    defs.append(("c_parts_ldiffc", ["l1", "l2", "ldiff"], "(if l1 >? l2 then %s else %s)" % (ex(c2)[0], ex(f2)[0])))
+    w0, wd0, w1, wd1 = one(fn, r"if\s*\(parts\.window == 0\)\s*\{\s*parts\.window\s*=\s*([^;]+);\s*parts\.width\s*=\s*([^;]+);\s*\}\s*else\s*\{\s*parts\.window\s*=\s*([^;]+);\s*parts\.width\s*=\s*([^;]+);\s*\}",
+                           "window/width")
+    # window as clipped; width in terms of the clipped window (the C code assigns window first)
+    defs.append(("c_parts_window", ["l1", "l2", "window"], "(if window =? 0 then %s else %s)" % (ex(w0)[0], ex(w1)[0])))
+    defs.append(("c_parts_width", ["l2", "ldiff", "window0", "window"],
+                 "(if window0 =? 0 then %s else %s)" % (ex(wd0)[0], ex(wd1)[0])))
+    e, fv = ex(one(fn, r"parts\.overlap_left_ri\s*=\s*([^;]+);", "overlap_left_ri"))
+    defs.append(("c_parts_overlap_left", fv, e))
+    init, x, y, t = one(fn, r"parts\.overlap_right_ri\s*=\s*([^;]+);\s*if\s*\(\(([^)]+)\) <= ([^)]+)\)\s*\{\s*parts\.overlap_right_ri\s*=\s*([^;]+);\s*\}",
+                        "overlap_right_ri")
+    ex_, fx = ex(x)
+    ey, fy = ex(y)
+    et, ft = ex(t)
+    defs.append(("c_parts_overlap_right", sorted(set(fx) | set(fy) | set(ft)),
+                 "(if %s <=? %s then %s else %s)" % (ex_, ey, et, ex(init)[0])))
+    for name in ("ri1", "ri2", "ri3"):
+        e, fv = ex(one(fn, r"parts\.%s\s*=\s*([^;]+);" % name, name))
+        defs.append(("c_parts_" + name, fv, e))
+    fn = "dtw_wps_shift"
+    c1, v1, c2_, v2, c3a, c3b, v3, v4 = one(fn, r"if\s*\(ri < ([^)]+)\)\s*\{\s*return ([^;]+);\s*\}\s*if\s*\(ri < ([^)]+)\)\s*\{\s*return ([^;]+);\s*\}\s*if\s*\(([^=)]+) == ([^)]+)\)\s*\{\s*return ([^;]+);\s*\}\s*return ([^;]+);",
+                                            "shift")
+    defs.append(("c_wps_shift", ["ri", "ri2", "ri3"],
+                 "(if ri <? %s then %s else if ri <? %s then %s else if %s =? %s then %s else %s)" % (
+                     c_expr(c1)[0], c_expr(v1)[0], c_expr(c2_)[0], c_expr(v2)[0], c_expr(c3a)[0], c_expr(c3b)[0],
+                     c_expr(v3)[0], c_expr(v4)[0])))
+    return defs
+
+
 LB_FUNCTIONS = ["lb_keogh", "lb_keogh_euclidean"]
 
 
@@ -527,6 +582,20 @@ def main():
         lines.append("Definition %s %s : Z := %s." % (name, " ".join("(%s : Z)" % v for v in fv), e))
     text = "\n".join(lines) + "\n"
     p = os.path.join(outdir, "Gen_clb.v")
+    old = open(p).read() if os.path.exists(p) else None
+    if old != text:
+        open(p, "w").write(text)
+    try:
+        defs = analyse_wps_parts()
+    except (TranslateError, OSError) as exc:
+        print("TRANSLATE-ERROR: translate_c: %s" % exc)
+        sys.exit(2)
+    lines = ["(* GENERATED by tools/translate_c.py from src/DTAIDistanceC/DTAIDistanceC/dd_dtw.c -- do not edit *)",
+             "From Coq Require Import ZArith Bool.", "Open Scope Z_scope.", ""]
+    for name, fv, e in defs:
+        lines.append("Definition %s %s : Z := %s." % (name, " ".join("(%s : Z)" % v for v in fv), e))
+    text = "\n".join(lines) + "\n"
+    p = os.path.join(outdir, "Gen_cwps.v")
     old = open(p).read() if os.path.exists(p) else None
     if old != text:
         open(p, "w").write(text)
